@@ -94,8 +94,10 @@ CORPUS = [
     "(pow (i 2) (neg x)) ;; (pow (i 2) x)",
     "(mul (pow x y) (pow x (neg y))) ;; (pow x y)",
     "(addv (mul (i 2) x) (mul (i 3) y) z) ;; (addv (mul (i 2) x) (mul (i 3) y) w)",
-    # known finding: regrouping a sum changes its canonical form (b + z - (b + z) is a canonical Add, the regrouped sum cancels)
+    # known finding: regrouping a sum / product changes its canonical form (b + z - (b + z) is a canonical Add, the regrouped sum
+    # cancels; p*q*(p*q)**r is a canonical Mul, the regrouped product is (p*q)**(1 + r))
     "(addv (neg (addv b z)) y (addv b z)) ;; (f1 sin (addv b z))",
+    "(mulv x y (pow (mulv x y) w)) ;; (add (mulv x y) z)",
     # known finding: in-band function names; regression cases of the fixed Piecewise-condition defect
     "(fs add x y) ;; (i 1)",
     "(fs mul x y) ;; (fs mul x y)",
@@ -201,12 +203,16 @@ def gen_case(rng):
 CLASS_NAMES = ["shape", "unfaithful", "not-fresh", "cyclic", "not-closed"]
 
 
-def classify(cls, hints, detail=""):
+def classify(cls, hints, detail="", tag="C", t_faithful=True):
     """violation key for an oracle class, using the driver's hints about the input"""
     if cls in ("unfaithful", "crash") and "reserved-funsym" in hints:
         return "C37/%s:funsym-named-add-mul-pow" % cls
+    if cls == "unfaithful" and tag == "C" and t_faithful:
+        # cse() is not faithful but tree_cse() alone on the same input is: the regrouping of sums / products by
+        # opt_cse (match_common_args) produced another canonical form
+        return "C37/unfaithful:regrouped-by-opt-cse-other-canonical-form"
     if cls == "unfaithful" and detail.startswith("expand-equal"):
-        return "C37/unfaithful:regrouped-sum-other-canonical-form"
+        return "C37/unfaithful:rebuild-other-canonical-form"
     return "C37/" + cls
 
 
@@ -238,10 +244,11 @@ def explore(ctx, drv, model, cases, stats, search=False):
         rep = {"family": "C37", "case": cases[i]}
         ctx.cov["traces_validated_against_impl"] += 1
         # ---- oracle on the library's outputs
+        t_faithful = not any(o.startswith("T:unfaithful") or o.startswith("T:crash") or o.startswith("T:exception") for o in oracles)
         for o in oracles:
             tag, _, rest = o.partition(":")
             cls, _, detail = rest.partition(":")
-            ctx.violation(classify(cls, hints, detail),
+            ctx.violation(classify(cls, hints, detail, tag, t_faithful),
                           "%s(es) with es = [%s]: %s %s; outputs: %s" % ("cse" if tag == "C" else "tree_cse", cases[i], cls, detail, sec.get(tag, "")[:400]),
                           rep)
         m = mod[k]
